@@ -77,8 +77,8 @@ fn video_ops(it: &VideoItem, cts: &[usize]) -> Option<Vec<Op>> {
 }
 
 pub fn check_c03(ctx: &Ctx) -> i32 {
-    let vmax = if ctx.thorough { 5 } else { 4 }; // steps => frames = steps + 1
-    let amax = if ctx.thorough { 4 } else { 3 };
+    let vmax = if ctx.thorough { 6 } else { 4 }; // steps => frames = steps + 1
+    let amax = if ctx.thorough { 5 } else { 3 };
     let starts = [0.0, 0.5, 36000.0];
     let mut items = vec![];
     for codec in [VCodec::H264, VCodec::Vp9] {
